@@ -14,11 +14,15 @@ var HostMain func() error
 // TBRun is cmd/thriftbreak's run, set by that package's TestMain.
 var TBRun func(args []string) error
 
+// TBMain is cmd/thriftbreak's main, set by that package's TestMain.
+var TBMain func()
+
 // Init wires the injected entry points into the engines.
 func Init() {
 	pluginw.HostMain = HostMain
 	orderw.HostMain = HostMain
 	orderw.TBRun = TBRun
+	orderw.TBMain = TBMain
 }
 
 func init() {
